@@ -117,6 +117,10 @@ def gen_program(rng, profile="general", payload=None, cap="rand"):
         return gen_handlepair(rng)
     if profile == "discrace":
         return gen_discrace(rng)
+    if profile == "waiters_timed":
+        return gen_waiters_timed(rng)
+    if profile == "termrace":
+        return gen_termrace(rng)
     if profile == "waiters":
         return gen_waiters(rng)
     if profile == "trystate":
@@ -1002,6 +1006,55 @@ def gen_handlepair(rng, a=None, b=None):
     # a third process keeps one handle of each side alive and observes at the end
     procs.append({"phase": 0, "handles": ["ss", "sr"], "ops": [{"op": "barrier", "ph": 2}] + [{"op": o, "h": 0} for o in ("sender_count", "receiver_count", "is_closed")]
                   + [{"op": "close", "h": 1}, {"op": "sender_count", "h": 0}]})
+    st = {"spin_bias": 0.995, "p_switch": 0.1, "q_tick": 0.0, "tick_phase": 9}
+    return {"cap": cap, "payload": "w1", "procs": procs, "strat": st}
+
+
+def gen_waiters_timed(rng):
+    """C13: after warm-up traffic (the waiting list's ring buffer has moved on), several timed waiters of one side register one
+    after the other; the ones registered LATER have the SHORTER deadline, nobody serves them, and the clock starts ticking only
+    once all are listed: each short one must report Timeout by itself (cancelling from the middle / the wrapped part of the list)."""
+    cap = rng.choice([0, 0, 1, 2])
+    side = rng.choice("sr")
+    warm = rng.choice([0, 3, 5, 6, 7, 7, 8, 9])
+    nw = rng.choice([2, 3, 3, 4])
+    wa, wb = [], []
+    for i in range(warm):
+        r = {"op": "recv", "h": 0}
+        w = {"op": "send", "h": 0, "m": 100 + i}
+        (wa if side == "r" else wb).append(r)
+        (wb if side == "r" else wa).append(w)
+    fill = [{"op": "barrier", "ph": 1}] + [{"op": "try_send", "h": 0, "m": 150 + i} for i in range(cap)] if side == "s" else []
+    procs = []
+    for i in range(nw):
+        d = 400 if i == 0 else 3
+        if side == "s":
+            op = {"op": rng.choice(["send_timeout", "send_option_timeout"]), "h": 0, "m": i + 1, "d": d}
+        else:
+            op = {"op": "recv_timeout", "h": 0, "d": d}
+        ops = [{"op": "barrier", "ph": 2 + i}, op, {"op": "len", "h": 0}]
+        procs.append({"phase": 0, "handles": ["s" + side], "ops": (wa + fill + ops) if i == 0 else ops})
+    other = "r" if side == "s" else "s"
+    procs.insert(1, {"phase": 0, "handles": ["s" + other, "s" + side], "ops": wb + [{"op": "barrier", "ph": 3 + nw}]})
+    st = {"spin_bias": 0.995, "p_switch": 0.1, "q_tick": 0.0, "tick_phase": 2 + nw, "tick_after": 0}
+    # nobody serves or closes before the short deadlines (3 ticks): every short timed waiter of this scenario must report Timeout
+    # (process indices after the insertion of the traffic process at position 1; the long waiter, process 0, may legitimately
+    # be released by the disconnect at the end)
+    expect = [i + 1 for i in range(1, nw)]
+    return {"cap": cap, "payload": rng.choice(["w1", "b3", "u8"]), "procs": procs, "strat": st, "expect_timeout": expect}
+
+
+def gen_termrace(rng):
+    """C03: an observer of 'terminated' (receiver or stream) races with the only sender buffering a value and going away."""
+    cap = rng.choice([1, 2, None])
+    obs = rng.choice(["stream", "stream", "recv"])
+    if obs == "stream":
+        o = [{"op": "stream_new", "h": 0, "f": 0}, {"op": "barrier", "ph": 1}, {"op": "stream_is_terminated", "f": 0}, {"op": "poll", "f": 0, "w": 1},
+             {"op": "stream_is_terminated", "f": 0}, {"op": "drop_fut", "f": 0}]
+    else:
+        o = [{"op": "barrier", "ph": 1}, {"op": "is_terminated", "h": 0}, {"op": "try_recv", "h": 0}, {"op": "is_terminated", "h": 0}]
+    sender = [{"op": "barrier", "ph": 1}, {"op": rng.choice(["try_send", "send", "try_send_realtime"]), "h": 0, "m": 7}, {"op": "drop", "h": 0}]
+    procs = [{"phase": 0, "handles": [rng.choice(["sr", "ar"])], "ops": o}, {"phase": 0, "handles": [rng.choice(["ss", "as"])], "ops": sender}]
     st = {"spin_bias": 0.995, "p_switch": 0.1, "q_tick": 0.0, "tick_phase": 9}
     return {"cap": cap, "payload": "w1", "procs": procs, "strat": st}
 
